@@ -38,6 +38,8 @@ class Finding:
 
 
 class ParserAI:
+    SUBJECT = PARSER
+
     def __init__(self, F, kind_names, max_states=6000):
         self.F = F
         self.names = kind_names
@@ -281,12 +283,15 @@ class ParserAI:
             a = self._op_av(f, rv[2], env, k, subst)
             if a is not None and a[0] == "b":
                 av = ("b", 1 - a[1])
-        elif kind == "bin" and rv[1] in ("Eq", "Ne"):
+        elif kind == "bin" and rv[1] in ("Eq", "Ne", "Lt", "Le", "Gt", "Ge"):
             a = self._op_av(f, rv[2], env, k, subst)
             b = self._op_av(f, rv[3], env, k, subst)
             if a is not None and b is not None and a[0] == b[0] and a[0] in ("i", "b", "k"):
-                eq = a[1] == b[1]
-                av = ("b", int(eq if rv[1] == "Eq" else not eq))
+                if rv[1] in ("Eq", "Ne"):
+                    eq = a[1] == b[1]
+                    av = ("b", int(eq if rv[1] == "Eq" else not eq))
+                elif a[0] == "i" and isinstance(a[1], int) and isinstance(b[1], int):
+                    av = ("b", int({"Lt": a[1] < b[1], "Le": a[1] <= b[1], "Gt": a[1] > b[1], "Ge": a[1] >= b[1]}[rv[1]]))
         if av is None:
             env.pop(dl, None)
         else:
@@ -394,9 +399,16 @@ class ParserAI:
             if a is not None and b is not None and a[0] == b[0] and a[0] in ("k", "i", "b") :
                 eq = a[1] == b[1]
                 return [ret(("b", int(eq if name == "eq" else not eq)))]
-            if a is not None and b is not None and a[0] == "v" and b[0] == "v" and (len(a) < 3 or a[2] is None) and (len(b) < 3 or b[2] is None):
-                eq = a[1] == b[1]
-                return [ret(("b", int(eq if name == "eq" else not eq)))]
+            if a is not None and b is not None and a[0] == "v" and b[0] == "v":
+                pa = a[2] if len(a) > 2 else None
+                pb = b[2] if len(b) > 2 else None
+                if a[1] != b[1]:
+                    return [ret(("b", int(name != "eq")))]
+                if pa is None and pb is None and _payload_free(f, c):
+                    return [ret(("b", int(name == "eq")))]
+                if pa is not None and pb is not None and pa[0] == pb[0] and pa[0] in ("i", "k", "b"):
+                    eq = pa[1] == pb[1]
+                    return [ret(("b", int(eq if name == "eq" else not eq)))]
             return [ret(None)]
         if name == "branch" and "Try" in path and argavs and argavs[0] is not None and argavs[0][0] == "v":
             a = argavs[0]
@@ -457,7 +469,7 @@ class ParserAI:
                 inner += list(argavs[1][1])
             return self._enter(path, inner, gargs, k, ret)
         # --- routines we can look into
-        takes_parser = any(op_local(a) is not None and PARSER in (f.local_ty(op_local(a)) or "") for a in c.args)
+        takes_parser = any(op_local(a) is not None and self.SUBJECT in (f.local_ty(op_local(a)) or "") for a in c.args)
         kind_arg = any(av is not None and (av[0] == "k" or (av[0] == "ref" and av[1] is not None and av[1][0] == "k")) for av in argavs)
         fn_arg = any(av is not None and av[0] == "fn" for av in argavs)
         if self.analysable(path) and (takes_parser or kind_arg or (fn_arg and is_parser_method)):
@@ -487,6 +499,13 @@ class ParserAI:
         if consumed_any:
             res.append(ret(None, consumed=True))
         return res
+
+
+def _payload_free(f, c):
+    """Are the compared enum values of a type whose variants carry nothing (so equal variants are equal values)?"""
+    l = op_local(c.args[0])
+    ty = f.local_ty(l) if l is not None else ""
+    return "TryParseFailure" in ty or "SyntaxKind" in ty or "TokenKind" in ty
 
 
 def _short(av):
@@ -672,3 +691,81 @@ def ctx_text(ctx):
         if t:
             parts.append(t)
     return ",".join(parts)
+
+
+# ---------------------------------------------------------------------------------------------
+# the same interpreter over the lexer: the look-ahead is the next character
+
+LEXER = "cairo_lang_parser::lexer::Lexer"
+EOF_CHAR = "EOF"
+CHAR_PREDICATES = {
+    "is_ascii_hexdigit": lambda ch: ch < 128 and chr(ch) in "0123456789abcdefABCDEF",
+    "is_ascii_digit": lambda ch: ch < 128 and chr(ch).isdigit(),
+    "is_ascii_alphanumeric": lambda ch: ch < 128 and chr(ch).isalnum(),
+    "is_ascii_alphabetic": lambda ch: ch < 128 and chr(ch).isalpha(),
+    "is_ascii_whitespace": lambda ch: ch in (9, 10, 12, 13, 32),
+    "is_ascii": lambda ch: ch < 128,
+    "is_whitespace": lambda ch: chr(ch).isspace(),
+    "is_alphanumeric": lambda ch: chr(ch).isalnum(),
+    "is_alphabetic": lambda ch: chr(ch).isalpha(),
+    "is_numeric": lambda ch: chr(ch).isnumeric(),
+    "is_ascii_punctuation": lambda ch: ch < 128 and (33 <= ch <= 47 or 58 <= ch <= 64 or 91 <= ch <= 96 or 123 <= ch <= 126),
+}
+
+
+def lexer_alphabet():
+    """Every ASCII character, two representatives of the non-ASCII characters, and end of input."""
+    return list(range(0, 128)) + [0xE9, 0x4E2D, 0x1F600] + [EOF_CHAR]
+
+
+class LexerAI(ParserAI):
+    SUBJECT = LEXER
+
+    def _call(self, f, c, env, k, subst):
+        dl = place_local(c.dest)
+        bare = not place_proj(c.dest)
+
+        def ret(av, consumed=False):
+            e = dict(env)
+            if bare and av is not None:
+                e[dl] = av
+            else:
+                e.pop(dl, None)
+            return (e, k, consumed)
+        path = c.path
+        name = last_seg(path)
+        argavs = [self._op_av(f, a, env, k, subst) for a in c.args]
+        if path.startswith(LEXER + "::"):
+            if name == "peek":
+                return [ret(("v", 0, None) if k == EOF_CHAR else ("v", 1, ("i", k)))]
+            if name == "take":
+                if k == EOF_CHAR:
+                    return [ret(("v", 0, None))]
+                return [ret(None, consumed=True)]
+            if name in ("peek_nth", "peek_text_span", "consume_text_span"):
+                return [ret(None)]
+        if name == "map" and "Option" in path and len(argavs) == 2 and argavs[0] is not None and argavs[0][0] == "v":
+            a, fav = argavs
+            if a[1] == 0:
+                return [ret(("v", 0, None))]
+            while fav is not None and fav[0] == "ref":
+                fav = fav[1]
+            if fav is not None and fav[0] == "fn" and self.analysable(fav[1]):
+                res = []
+                for rav, consumed in self.outcomes(fav[1], k, (), (None, a[2] if len(a) > 2 else None)):
+                    res.append(ret(("v", 1, rav) if not consumed else None, consumed=consumed))
+                return res
+            return [ret(("v", 1, None))]
+        if name in ("unwrap_or", "unwrap_or_default") and argavs and argavs[0] is not None and argavs[0][0] == "v":
+            a = argavs[0]
+            if a[1] == 1:
+                return [ret(a[2] if len(a) > 2 else None)]
+            return [ret(argavs[1] if len(argavs) > 1 else ("b", 0))]
+        if name in CHAR_PREDICATES and argavs:
+            a = argavs[0]
+            while a is not None and a[0] == "ref":
+                a = a[1]
+            if a is not None and a[0] == "i" and isinstance(a[1], int):
+                return [ret(("b", int(bool(CHAR_PREDICATES[name](a[1])))))]
+            return [ret(None)]
+        return super()._call(f, c, env, k, subst)
